@@ -714,28 +714,61 @@ Proof.
   - apply node_value_ok_target, H.
   - apply (proj1 (resolve_outputs_ok_iff net [p] W) H p). left. reflexivity.
 Qed.
+Lemma WFnet_nil : WFnet [].
+Proof. split; [constructor | intros n ops []]. Qed.
+Lemma flat_probe_nowhere : forall k depth, flat_probe_result k depth [] nowhere <> Ok.
+Proof.
+  intros k depth H. pose proof (flat_probe_ok k depth [] nowhere WFnet_nil H) as X.
+  destruct k; cbn in X; try (destruct X as [[ops [vars [[] _]]] _]).
+Qed.
+Lemma hier_gen_ok_wellformed : forall fixed4 k depth hnet p, WFnet (subnet hnet (firstn depth p)) ->
+  match k with HNodeValue => fixed4 || negb (too_short depth p && names_circuit hnet (node_part p)) = true | _ => True end ->
+  hier_result_gen fixed4 k depth hnet p = Ok -> WellFormed (PHier k depth hnet p).
+Proof.
+  intros fixed4 k depth hnet p W G H. unfold hier_result_gen in H. cbn [WellFormed].
+  destruct (too_short depth p) eqn:TS.
+  - exfalso. destruct (names_circuit hnet (node_part p)) eqn:NC.
+    + destruct k; try discriminate. destruct fixed4; [discriminate|]. cbn in G. discriminate.
+    + exact (flat_probe_nowhere k depth H).
+  - split; [reflexivity|]. pose proof (flat_probe_ok k depth _ _ W H) as X. destruct k; exact X.
+Qed.
 Lemma hier_ok_wellformed : forall k depth hnet p, WFnet (subnet hnet (firstn depth p)) ->
+  guard_node_value_not_circuit (PHier k depth hnet p) = true ->
   hier_result k depth hnet p = Ok -> WellFormed (PHier k depth hnet p).
 Proof.
-  intros k depth hnet p W H. unfold hier_result in H. cbn [WellFormed].
-  destruct (circuit_known hnet (firstn depth p)); [|discriminate].
-  split; [reflexivity|]. pose proof (flat_probe_ok k depth _ _ W H) as X. destruct k; exact X.
+  intros k depth hnet p W G H. apply (hier_gen_ok_wellformed fixed_F4); try assumption.
+  destruct k; try exact I. exact G.
+Qed.
+Lemma flat_probe_warn : forall k depth net p, flat_probe_result k depth net p = Warn ->
+  match k with
+  | HInput | HUpdate => True
+  | HNodeValue => warn_suffices (PNodeValue net p) = true
+  | _ => False end.
+Proof.
+  intros k depth net p H. destruct k; cbn [flat_probe_result] in H; try exact I.
+  - unfold edge_endpoint in H. destruct (_ && _); discriminate.
+  - apply node_value_warn_suffices, H.
+  - unfold resolve_outputs in H. destruct (forallb _ _); discriminate.
 Qed.
 Lemma hier_warn : forall k depth hnet p, hier_result k depth hnet p = Warn -> warn_suffices (PHier k depth hnet p) = true.
 Proof.
-  intros k depth hnet p H. unfold hier_result in H.
-  destruct (circuit_known hnet (firstn depth p)); [|discriminate].
-  destruct k; cbn [flat_probe_result] in H; cbn [warn_suffices]; try reflexivity.
-  - unfold edge_endpoint in H. destruct (_ && _); discriminate.
-  - apply node_value_warn_suffices in H. cbn [warn_suffices] in H.
-    destruct (skipn depth p); [discriminate | exact H].
-  - unfold resolve_outputs in H. destruct (forallb _ _); discriminate.
+  intros k depth hnet p H. unfold hier_result, hier_result_gen in H.
+  destruct (too_short depth p) eqn:TS.
+  - destruct k; cbn [warn_suffices]; try reflexivity; try (rewrite TS; reflexivity).
+    + destruct (names_circuit hnet (node_part p)); [discriminate|]. apply flat_probe_warn in H. destruct H.
+    + destruct (names_circuit hnet (node_part p)); [discriminate|]. apply flat_probe_warn in H. destruct H.
+  - pose proof (flat_probe_warn _ _ _ _ H) as X. destruct k; cbn [warn_suffices].
+    + destruct X.
+    + reflexivity.
+    + reflexivity.
+    + rewrite TS. cbn [orb]. cbn [warn_suffices] in X. destruct (skipn depth p); [discriminate | exact X].
+    + destruct X.
 Qed.
 
 (* C20: whatever returns quietly was a well-formed / supported request *)
 Theorem impl_ok_wellformed : forall p, WFprobe p -> guard p = true -> impl p = Ok -> WellFormed p.
 Proof.
-  intros p W G H. unfold guard in G.
+  intros p W G H. unfold guard in G. apply andb_true_iff in G. destruct G as [G G4].
   destruct p; cbn [impl WellFormed WFprobe] in *.
   - apply outcome_ok_supported, H.
   - apply (mixed_ok_supported b s v first_plain e), H.
@@ -813,7 +846,7 @@ Proof.
   - destruct (toposort (map oname ops) (op_edges ops)) eqn:T.
     + split; [|reflexivity]. intros _ [S C]. rewrite (cycle_rejected _ _ S C) in T. discriminate.
     + split; [discriminate|]. intros H. exfalso. apply H. apply toposort_none_iff, T.
-  - rewrite andb_true_iff. destruct k.
+  - rewrite andb_true_iff, negb_true_iff. destruct k.
     + rewrite (path3b_iff _ _ W). tauto.
     + rewrite (path3b_iff _ _ W). tauto.
     + rewrite (path3b_iff _ _ W). tauto.
@@ -848,9 +881,33 @@ Proof.
     unfold F3_probe, impl, verify_path. rewrite E. vm_compute. reflexivity.
   - unfold F3_probe, guard_path_not_attr. rewrite E. vm_compute. reflexivity.
 Qed.
-(* the code with proposed_fix_C20_F3: the full statement is a theorem *)
-Theorem C20_full_when_F3_fixed : fixed_F3 = true -> C20_full_statement.
+(* after D76 (fixed_F3 = true) the only guard left is the one of F4 *)
+Theorem C20_full_modulo_F4_when_F3_fixed : fixed_F3 = true ->
+  forall p, WFprobe p -> guard_node_value_not_circuit p = true -> impl p = Ok -> WellFormed p.
 Proof.
-  intros E p W Hi. apply (impl_ok_wellformed p W); [|exact Hi].
-  unfold guard, guard_path_not_attr. destruct p; try reflexivity; rewrite E; reflexivity.
+  intros E3 p W G Hi. apply (impl_ok_wellformed p W); [|exact Hi].
+  unfold guard. rewrite G, andb_true_r. unfold guard_path_not_attr.
+  destruct p; try reflexivity; rewrite E3; reflexivity.
 Qed.
+(* with both repairs (D76 = F3, proposed_fix_C20_F4): the full statement is a theorem *)
+Theorem C20_full_when_fixed : fixed_F3 = true -> fixed_F4 = true -> C20_full_statement.
+Proof.
+  intros E3 E4 p W Hi. apply (impl_ok_wellformed p W); [|exact Hi].
+  unfold guard, guard_path_not_attr, guard_node_value_not_circuit.
+  destruct p; try reflexivity; try (rewrite E3; reflexivity).
+  destruct k; try reflexivity; rewrite ?E3, ?E4; reflexivity.
+Qed.
+(* the code as it is after D76: refuted by a too-short node_values key that names a circuit (finding F4) *)
+Definition F4_hnet : hnetwork := [(["c1"; "a"], [("o1", ["g"])]); (["c1"; "b"], [("o1", ["g"])])].
+Definition F4_probe : probe := PHier HNodeValue 1 F4_hnet ["c1"; "o1"; "g"].
+Theorem C20_refuted_short_node_value : fixed_F4 = false ->
+  ~ C20_full_statement /\ guard_node_value_not_circuit F4_probe = false.
+Proof.
+  intros E. split.
+  - apply (refute_by F4_probe); [vm_compute; reflexivity | | vm_compute; reflexivity].
+    unfold F4_probe, impl, hier_result. rewrite E. vm_compute. reflexivity.
+  - unfold F4_probe, guard_node_value_not_circuit. rewrite E. vm_compute. reflexivity.
+Qed.
+Theorem short_node_value_repaired : forall depth hnet p, too_short depth p = true ->
+  names_circuit hnet (node_part p) = true -> hier_result_gen true HNodeValue depth hnet p = Warn.
+Proof. intros depth hnet p T N. unfold hier_result_gen. rewrite T, N. reflexivity. Qed.
